@@ -4,6 +4,7 @@ package main
 
 import (
 	"go/token"
+	"sort"
 	"strings"
 
 	"trzszlint/xssa"
@@ -323,6 +324,19 @@ func c18R3(c *Ctx) {
 		call, _ := callOf(set.(ssa.CallInstruction).Common().Args[1])
 		c.check(call != nil && calleeID(&call.Call) == tT+"getNewTimeout", "resume/fresh-timer", c.ipos(set), "the fresh timer comes from getNewTimeout", "resume installs something that is not a fresh timer")
 	}
+	// the buffer adopts the replacement only when the running timeout fires (nextBuffer): resume must leave that timer running
+	var stops []string
+	reachR := c.reachableNarrow(r)
+	for _, g := range c.AllFns {
+		if !reachR[g] || g.Blocks == nil {
+			continue
+		}
+		for _, ci := range callsIn(g, idIs("(*time.Timer).Stop", "(*time.Timer).Reset")) {
+			stops = append(stops, c.fnName(g)+" at "+c.ipos(ci.(ssa.Instruction)))
+		}
+	}
+	sort.Strings(stops)
+	c.check(len(stops) == 0, "resume/running-timeout-kept", c.pos(r.Pos()), "resume stops or re-arms no timer: the read in flight keeps the timeout whose expiry makes the buffer adopt the replacement", "resume stops or re-arms a timer ("+strings.Join(stops, "; ")+"): the buffer adopts the replacement timeout only when the running one fires, so the read in flight is left without any timeout")
 	c.check(hasStore(r, "resumeBeginTime") && hasStoreConst(r, "pauseBeginTime", 0), "resume/bookkeeping", c.pos(r.Pos()), "resume records its time and clears the pause start", "resume no longer resets the pause bookkeeping")
 }
 
